@@ -112,6 +112,9 @@ def execute(p, chooser):
                             raise e
                         for d in ds:
                             d.yield_result((-1 if d.result is None else d.result) * 16 + i)
+                        # whatever a poll function returns besides an int / float delay means "default interval": None, a string,
+                        # the list of what it just completed ...
+                        return [None, None, 1, 0.5, "soon", [len(ds)], (1,), True][(i + kcall) % 8] if ds else None
                     ex = ex.with_poll(poll_fn, default_interval=1)
                 elif k == "retry":
                     ex = ex.with_retry(max_attempts=l["max_attempts"], sleep=1)
